@@ -196,6 +196,43 @@ class BitRep:
         """value of (self | other) == (self ^ other) == (self + other) when disjoint"""
         return BitRep(self.slices + other.slices, self.top if self.top is not None else other.top)
 
+    def bitwise(self, other, op):
+        """exact a|b, a&b, a^b (op in 'or','and','xor') for two FINITE representations (no top): positions covered by one
+        operand only are copied (or dropped for 'and'); overlapping positions are decided bit by bit with if-then-else
+        terms.  Returns None when an operand is unbounded (the caller falls back to concretisation)."""
+        if self.top is not None or other.top is not None:
+            return None
+        cuts = set()
+        for s, w, _, _, _ in self.slices + other.slices:
+            cuts.add(s)
+            cuts.add(s + w)
+        cuts = sorted(cuts)
+        out = []
+        for a, b in zip(cuts, cuts[1:]):
+            pa, pb = self.extract(a, b), other.extract(a, b)
+            if not pa and not pb:
+                continue
+            if not pa or not pb:
+                if op == "and":
+                    continue
+                for rel, w, base, bw, lo in (pa or pb):
+                    out.append((a + rel, w, base, bw, lo))
+                continue
+            for i in range(a, b):
+                ba = self.extract(i, i + 1)
+                bb = other.extract(i, i + 1)
+                ta = _bits(ba[0][2], ba[0][3], ba[0][4], 1) if ba else _iv(0)
+                tb = _bits(bb[0][2], bb[0][3], bb[0][4], 1) if bb else _iv(0)
+                ssum = ta + tb
+                if op == "or":
+                    t = z3.If(ssum >= 1, _iv(1), _iv(0))
+                elif op == "and":
+                    t = z3.If(ssum == 2, _iv(1), _iv(0))
+                else:
+                    t = z3.If(ssum == 1, _iv(1), _iv(0))
+                out.append((i, 1, t, 1, 0))
+        return BitRep(out, None)
+
     def same_as(self, other):
         """syntactic equality of normalised representations (sufficient for value equality)"""
         if len(self.slices) != len(other.slices) or (self.top is None) != (other.top is None):
@@ -278,6 +315,15 @@ def validate(seed=0, rounds=400):
             check_inv(rep)
             if rep.finite_below(64):
                 assert 0 <= cur < (1 << 64)
+            if rep.top is None and rnd.random() < 0.5:
+                y = rnd.randrange(0, 1 << 20)
+                yrep = BitRep.of_bytes_lsf([_iv((y >> (8 * i)) & 255) for i in range(3)]).and_const(rnd.randrange(1, 1 << 20))
+                yv = ev(yrep)
+                for opn, pyop in (("or", lambda p, q: p | q), ("and", lambda p, q: p & q), ("xor", lambda p, q: p ^ q)):
+                    r = rep.bitwise(yrep, opn)
+                    assert r is not None and ev(r) == pyop(cur, yv), ("bitwise", opn, cur, yv)
+                    check_inv(r)
+                n += 1
             a = rnd.randrange(0, 40)
             b = a + rnd.randrange(1, 16)
             got = sum(z3.simplify(_bits(base, bw, lo, w)).as_long() << rel for rel, w, base, bw, lo in rep.extract(a, b))
